@@ -925,9 +925,11 @@ struct Closure {
     max_gauges: Gauges,
     samples: Vec<serde_json::Value>,
     by_sub: BTreeMap<String, usize>,
+    frontier_left: usize,
 }
 
-fn explore(host: HostKind, b: &Bounds, cap: usize, rep: &Reporter) -> Closure {
+fn explore(host: HostKind, b: &Bounds, cap: usize, limit_s: f64, rep: &Reporter) -> Closure {
+    let deadline = mc_kit::Deadline::new(limit_s);
     let mut seen: BTreeMap<Key, Vec<Act>> = BTreeMap::new();
     let mut queue: VecDeque<(Vec<Act>, Ref)> = VecDeque::new();
     let first = run_path(host, &[], b, false);
@@ -943,10 +945,12 @@ fn explore(host: HostKind, b: &Bounds, cap: usize, rep: &Reporter) -> Closure {
         max_gauges: Gauges::default(),
         samples: vec![],
         by_sub: BTreeMap::new(),
+        frontier_left: 0,
     };
     while let Some((path, rf)) = queue.pop_front() {
-        if seen.len() >= cap {
+        if seen.len() >= cap || deadline.expired() {
             c.closed = false;
+            c.frontier_left = queue.len() + 1;
             break;
         }
         for a in rf.enabled(host, b) {
@@ -1028,8 +1032,9 @@ pub fn run(tier: Tier, args: &[String]) -> i32 {
             mc_kit::machinery_error("C13: two executions of one path differ (harness)");
         }
     }
-    let bridge = explore(HostKind::Bridge, &b, cap, &rep);
-    let direct = explore(HostKind::Direct, &b, cap, &rep);
+    let limit = tier.pick(45.0, 780.0);
+    let direct = explore(HostKind::Direct, &b, cap, limit * 0.25, &rep);
+    let bridge = explore(HostKind::Bridge, &b, cap, (limit - rep.elapsed()).max(5.0), &rep);
     let show = |c: &Closure, host: &str| {
         json!({
             "host": host,
@@ -1037,6 +1042,7 @@ pub fn run(tier: Tier, args: &[String]) -> i32 {
             "transitions": c.transitions,
             "steps_executed_including_prefix_replays": c.steps,
             "closed": c.closed,
+            "unexpanded_states_when_stopped": c.frontier_left,
             "states_cut_at_a_violation": c.cut_states,
             "longest_shortest_path": c.max_depth,
             "max_gauges_seen": c.max_gauges,
